@@ -19,6 +19,37 @@ PARSERS = {
 DOC_ALIASES = {"v0-40": "NONE", "v40-60": "PARTIAL", "v60-80": "MOST", "v80-100": "FULL"}
 DOC_ALIAS_DEFAULT = "UNAVAILABLE"
 
+# The configuration vocabulary (member name -> string value) as documented in the enums' docstrings / docs/en/*/design.md and written in
+# scenario files.  The generator, the oracle's `expected` and the member-table check read THIS table, not the running enums, so that a
+# member that disappears or changes its value is not followed silently by all three sides.  (Members added later are not an error.)
+DOC_TABLES = {
+    "EvaluationTask": {"DETECTION": "detection", "TRACKING": "tracking", "PREDICTION": "prediction", "SENSING": "sensing",
+                       "DETECTION2D": "detection2d", "TRACKING2D": "tracking2d", "CLASSIFICATION2D": "classification2d",
+                       "FP_VALIDATION": "fp_validation", "FP_VALIDATION2D": "fp_validation2d"},
+    "FrameID": {"BASE_LINK": "base_link", "MAP": "map", "LIDAR_CONCAT": "lidar_concat", "LIDAR_TOP": "lidar_top",
+                "RADAR_FRONT": "radar_front", "RADAR_FRONT_RIGHT": "radar_front_right", "RADAR_FRONT_LEFT": "radar_front_left",
+                "RADAR_BACK": "RADAR_BACK", "RADAR_BACK_RIGHT": "radar_back_right", "RADAR_BACK_LEFT": "radar_back_left",
+                "CAM_FRONT": "cam_front", "CAM_FRONT_RIGHT": "cam_front_right", "CAM_FRONT_LEFT": "cam_front_left",
+                "CAM_FRONT_LOWER": "cam_front_lower", "CAM_BACK": "cam_back", "CAM_BACK_LEFT": "cam_back_left",
+                "CAM_BACK_RIGHT": "cam_back_right", "CAM_TRAFFIC_LIGHT_NEAR": "cam_traffic_light_near",
+                "CAM_TRAFFIC_LIGHT_FAR": "cam_traffic_light_far", "CAM_TRAFFIC_LIGHT": "cam_traffic_light"},
+    "Visibility": {"FULL": "full", "MOST": "most", "PARTIAL": "partial", "NONE": "none", "UNAVAILABLE": "not available"},
+    "SensorModality": {"LIDAR": "lidar", "CAMERA": "camera", "RADAR": "radar"},
+    "ShapeType": {"BOUNDING_BOX": "bounding_box", "POLYGON": "polygon"},
+    "MatchingLabelPolicy": {"DEFAULT": "DEFAULT", "ALLOW_UNKNOWN": "ALLOW_UNKNOWN", "ALLOW_ANY": "ALLOW_ANY"},
+}
+# enums whose printed form str(member) is documented to be the member's value (a __str__ returning self.value)
+PRINTS_VALUE = ("EvaluationTask", "FrameID", "Visibility", "SensorModality", "ShapeType")
+# further string-accepting call sites, judged by the oracle only (no parser shape in the model): site -> enum of its argument
+ORACLE_ONLY = {"set_task_lists": "EvaluationTask", "set_task_dict": "EvaluationTask", "FrameID.from_task": "EvaluationTask"}
+FROM_TASK_DOC = {"DETECTION": "BASE_LINK", "SENSING": "BASE_LINK", "TRACKING": "MAP", "PREDICTION": "MAP"}    # documented; 2D tasks: ValueError
+MEMBERS = "<members>"
+# strings outside ASCII that no rule of the documentation turns into a member spelling (fullwidth letters, accents, long s, dotless i,
+# no-break space).  NOT among them: the Kelvin sign U+212A, which str.lower() folds to "k" (see the final report: FrameID.from_value
+# accepts "base_lin\u212a").
+NON_ASCII = ["\uff4d\uff41\uff50", "d\u00e9tection", "map\u00a0", "\u017fen\u017fing", "l\u0131dar", "LIDAR\u0130", "\u00e7ar", "full\u200b",
+             "\u0131", "bounding_box\u00a0", "DEFAULT\u00a0", "\u0434\u0435\u0442\u0435\u043a\u0446\u0438\u044f"]
+
 
 def _impl():
     from perception_eval.common.evaluation_task import EvaluationTask, set_task
@@ -41,6 +72,39 @@ def _impl():
         "TransformKey(src)": lambda s: TransformKey(s, "map").src,
     }
     return enums, fns
+
+
+def _oracle_only_site(site, s):
+    """Observation of one oracle-only call site on the string s: what the string spelling gives and, when the string is a documented value,
+    what the enum spelling gives."""
+    from perception_eval.common.evaluation_task import EvaluationTask, set_task_dict, set_task_lists
+    from perception_eval.common.schema import FrameID
+
+    def show(r):
+        if isinstance(r, list):
+            return {"kind": "list", "items": [classify(EvaluationTask, x) for x in r]}
+        if isinstance(r, dict):
+            return {"kind": "dict", "items": [[classify(EvaluationTask, k), v] for k, v in r.items()]}
+        return classify(FrameID, r)
+
+    def call(f):
+        try:
+            return show(f())
+        except (ValueError, AssertionError, KeyError, TypeError) as e:
+            return {"kind": "raises", "type": type(e).__name__, "msg": str(e)[:80]}
+
+    out = {}
+    if site == "set_task_lists":
+        out["str"] = call(lambda: set_task_lists([s]))
+        out["twice"] = call(lambda: set_task_lists([s, "detection", s]))
+    elif site == "set_task_dict":
+        out["str"] = call(lambda: set_task_dict({s: {"foo": 1}}))
+    else:
+        out["str"] = call(lambda: FrameID.from_task(s))
+        member = [m for m in EvaluationTask if DOC_TABLES["EvaluationTask"].get(m.name) == s]
+        if member:
+            out["enum"] = call(lambda: FrameID.from_task(member[0]))
+    return out
 
 
 def _fp():
@@ -76,14 +140,19 @@ class ParserCorr(Corr):
     requires = ["Gen/Enums.vo", "Base/CaseUtil.vo"]
 
     def cases(self, tier, rng):
-        enums, _ = _impl()
         n_rand = 150 if tier == "quick" else 1500
         out = []
+        # the documented member table of every enum against the running one
+        for ename in DOC_TABLES:
+            out.append({"parser": MEMBERS, "enum": ename})
         for pname, (ename, _, _, _) in PARSERS.items():
-            E = enums[ename]
-            vals = [m.value for m in E]
-            keys = [m.name for m in E]
-            seen = set()
+            vals = list(DOC_TABLES[ename].values())
+            keys = list(DOC_TABLES[ename])
+            # the PRINTED form str(member) of every member (computed on the implementation) parses back to the member
+            if ename in PRINTS_VALUE:
+                for k in keys:
+                    out.append({"parser": pname, "printed": k})
+            seen = set(NON_ASCII)
             for v in vals + keys:
                 for s in case_variants(v, rng):
                     seen.add(s)
@@ -98,16 +167,53 @@ class ParserCorr(Corr):
                 seen.add("".join(rng.choice(alphabet) for _ in range(rng.randint(1, 12))))
             for s in sorted(seen):
                 out.append({"parser": pname, "input": s})
+        # further call sites (oracle only): every documented value, its case variants, near misses
+        for site, ename in ORACLE_ONLY.items():
+            seen = {"", "zzz", "detection ", "Detection", "detect", "detection2D"}
+            for v in DOC_TABLES[ename].values():
+                seen.update({v, v.upper(), v[:-1]})
+            for s in sorted(seen):
+                out.append({"parser": site, "input": s})
         return out
 
     def run_impl(self, case):
         enums, fns = _impl()
+        if case["parser"] == MEMBERS:
+            E = enums[case["enum"]]
+            primary = next(p for p, v in PARSERS.items() if v[0] == case["enum"])
+            back = {}
+            for m in E:       # recorded for every enum (judged by the `printed` cases for the enums that document __str__)
+                try:
+                    back[m.name] = fns[primary](str(m)) is m
+                except (ValueError, AssertionError, KeyError):
+                    back[m.name] = False
+            return {"kind": "table", "table": {m.name: m.value for m in E}, "printed": {m.name: str(m) for m in E}, "printed_parses_back": back}
+        if case["parser"] in ORACLE_ONLY:
+            return {"kind": "site", **_oracle_only_site(case["parser"], case["input"])}
         E = enums[PARSERS[case["parser"]][0]]
+        extra = {}
+        if "printed" in case:
+            if case["printed"] not in E.__members__:
+                return {"kind": "missing-member", "printed": None}
+            case = dict(case, input=str(E[case["printed"]]))
+            extra = {"printed": case["input"]}
         try:
             r = fns[case["parser"]](case["input"])
         except (ValueError, AssertionError, KeyError) as e:
-            return {"kind": "raises", "type": type(e).__name__}
+            return {"kind": "raises", "type": type(e).__name__, **extra}
         out = classify(E, r)
+        out.update(extra)
+        if case["parser"] == "Shape(shape_type)" and out["kind"] == "member":
+            # the documented default: no footprint (oracle only; key not read by the model comparison)
+            from perception_eval.common.shape import Shape
+
+            def mk(t):
+                try:
+                    sh = Shape(t, (1.0, 2.0, 3.0))
+                    return {"type": sh.type.name, "size": list(sh.size), "corners": sorted([round(float(x), 12), round(float(y), 12)] for x, y, *_ in list(sh.footprint.exterior.coords)[:4])}
+                except (ValueError, AssertionError) as e:
+                    return {"raises": type(e).__name__}
+            out["default_footprint"] = {"str": mk(case["input"]), "enum": mk(E[out["key"]])}
         if case["parser"] == "Shape(shape_type)" and out["kind"] == "member":
             # both spellings must behave identically
             from perception_eval.common.shape import Shape
@@ -151,8 +257,12 @@ class ParserCorr(Corr):
         return "(KeyStr \"<unrepresentable>\")"
 
     def coq_term(self, case, obs):
+        if case["parser"] == MEMBERS or case["parser"] in ORACLE_ONLY:
+            return "true"           # judged by the oracle only
+        if "printed" in case and obs.get("printed") is None:
+            return "false"          # the documented member does not exist
         ename, pname, _, _ = PARSERS[case["parser"]]
-        s = slit(case["input"])
+        s = slit(obs["printed"] if "printed" in case else case["input"])
         if case["parser"] == "Shape(shape_type)":
             t = f"enum_or_str {ename}_enum {pname} Shape_init_str_branch (inl {s})"
         elif case["parser"] == "TransformKey(src)":
@@ -163,25 +273,88 @@ class ParserCorr(Corr):
         return f"(result_eqb ({t}) {self._model_result(obs)} && {'true' if ok else 'false'})"
 
     def coq_debug(self, case, obs):
+        if case["parser"] not in PARSERS:
+            return "true"
         ename, pname, _, _ = PARSERS[case["parser"]]
-        return f"run_parser {ename}_enum {pname} {slit(case['input'])}"
+        return f"run_parser {ename}_enum {pname} {slit(obs.get('printed') or '' if 'printed' in case else case['input'])}"
 
     def expected(self, case):
-        enums, _ = _impl()
+        """from the DOCUMENTED tables (never from the running enums)"""
         ename, _, rule, miss = PARSERS[case["parser"]]
-        E = enums[ename]
+        if "printed" in case:
+            return {"kind": "member", "key": case["printed"]}
         s = case["input"]
-        hits = [m for m in E if (m.value == s if rule == "exact" else m.value.lower() == s.lower())]
+        if not s.isascii():
+            return {"kind": "member", "key": DOC_ALIAS_DEFAULT} if miss == "alias" else {"kind": "raises"}
+        hits = [k for k, v in DOC_TABLES[ename].items() if (v == s if rule == "exact" else v.lower() == s.lower())]
         if len(hits) > 1:
             return {"kind": "ambiguous"}
         if hits:
-            return {"kind": "member", "key": hits[0].name}
+            return {"kind": "member", "key": hits[0]}
         if miss == "alias":
             return {"kind": "member", "key": DOC_ALIASES.get(s, DOC_ALIAS_DEFAULT)}
         return {"kind": "raises"}
 
+    def _oracle_site(self, case, obs):
+        site, s = case["parser"], case["input"]
+        key = next((k for k, v in DOC_TABLES["EvaluationTask"].items() if v == s), None)
+        member = {"kind": "member", "key": key}
+        o = obs["str"]
+        if site == "set_task_lists":
+            if key is not None:
+                if o != {"kind": "list", "items": [member]}:
+                    return f"set_task_lists([{s!r}]) should be [{key}] but is {o}"
+                det = {"kind": "member", "key": "DETECTION"}
+                if obs["twice"] != {"kind": "list", "items": [member, det, member]}:
+                    return f"set_task_lists([{s!r}, 'detection', {s!r}]) should be [{key}, DETECTION, {key}] but is {obs['twice']}"
+            elif o.get("kind") == "list" and o["items"]:
+                return f"set_task_lists([{s!r}]) turns a string that names no task into {o['items']}"
+            return None      # (a string that names no task is dropped silently today: see the final report; not judged)
+        if site == "set_task_dict":
+            # every documented task name keys the dict by that very member (repaired by /repo 01bdf34: EvaluationTask had lost __hash__)
+            if key is not None and o != {"kind": "dict", "items": [[member, {"foo": 1}]]}:
+                return f"set_task_dict({{{s!r}: {{'foo': 1}}}}) should be {{{key}: {{'foo': 1}}}} but is {o}"
+            if key is None and o.get("kind") == "dict" and o["items"]:
+                return f"set_task_dict keys a string that names no task: {o['items']}"
+            return None
+        # FrameID.from_task: string and enum spelling behave identically; documented mapping; anything else is rejected
+        if key is None:
+            return None if o.get("kind") == "raises" else f"FrameID.from_task({s!r}) names no task and should be rejected but gives {o}"
+        if o.get("kind") != obs.get("enum", {}).get("kind") or o.get("key") != obs.get("enum", {}).get("key"):
+            return f"FrameID.from_task({s!r}) = {o} but FrameID.from_task(EvaluationTask.{key}) = {obs.get('enum')}"
+        if key in FROM_TASK_DOC and o != {"kind": "member", "key": FROM_TASK_DOC[key]}:
+            return f"FrameID.from_task({s!r}) should be {FROM_TASK_DOC[key]} but is {o}"
+        if key.endswith("2D") and o.get("kind") != "raises":
+            return f"FrameID.from_task({s!r}) is documented to raise for 2D tasks but gives {o}"
+        return None
+
     def oracle(self, case, obs):
+        if case["parser"] == MEMBERS:
+            doc = DOC_TABLES[case["enum"]]
+            bad = {k: (v, obs["table"].get(k)) for k, v in doc.items() if obs["table"].get(k) != v}
+            if bad:
+                return f"{case['enum']}: documented members (name: documented value, running value) {bad}"
+            if case["enum"] in PRINTS_VALUE:
+                pr = {k: obs["printed"].get(k) for k, v in doc.items() if obs["printed"].get(k) != v}
+                if pr:
+                    return f"{case['enum']}: the printed form of a member is not its value: {pr}"
+            return None
+        if case["parser"] in ORACLE_ONLY:
+            return self._oracle_site(case, obs)
+        if obs.get("kind") == "missing-member":
+            return f"{case['parser']}: the documented member {case['printed']} does not exist"
         exp = self.expected(case)
+        shown = obs.get("printed") if "printed" in case else case["input"]
+        case = dict(case, input=shown)
+        df = obs.get("default_footprint")
+        if df is not None and exp["kind"] == "member":
+            if df["str"] != df["enum"]:
+                return f"Shape({shown!r}, size) without a footprint gives {df['str']} but Shape(ShapeType.{exp['key']}, size) gives {df['enum']}"
+            if exp["key"] == "BOUNDING_BOX" and df["str"] != {"type": "BOUNDING_BOX", "size": [1.0, 2.0, 3.0],
+                                                               "corners": [[-1.0, -0.5], [-1.0, 0.5], [1.0, -0.5], [1.0, 0.5]]}:
+                return f"Shape({shown!r}, (1, 2, 3)) without a footprint: {df['str']} is not the length x width rectangle of the size"
+            if exp["key"] == "POLYGON" and "raises" not in df["str"]:
+                return f"Shape({shown!r}, size) without a footprint is documented to need one but gives {df['str']}"
         if exp["kind"] == "ambiguous":
             return f"two members of the enum share the spelling {case['input']!r}"
         if exp["kind"] == "member":
@@ -195,6 +368,8 @@ class ParserCorr(Corr):
         return None
 
     def nontrivial(self, case, obs):
+        if case["parser"] not in PARSERS:
+            return case["parser"] == MEMBERS or case["input"] in DOC_TABLES["EvaluationTask"].values()
         return self.expected(case)["kind"] == "member" or case["input"].lower() != case["input"]
 
     def distribution(self, cases, obs):
@@ -204,7 +379,23 @@ class ParserCorr(Corr):
         per = {}
         for c in cases:
             per[c["parser"]] = per.get(c["parser"], 0) + 1
-        return {"result_kinds": d, "per_parser": per}
+        extra = {"printed_form_cases": sum(1 for c in cases if "printed" in c), "non_ascii_inputs": sum(1 for c in cases if not c.get("input", "").isascii()),
+                 "default_footprint_checks": sum(1 for o in obs if isinstance(o, dict) and "default_footprint" in o),
+                 "oracle_only_site_cases": sum(1 for c in cases if c["parser"] in ORACLE_ONLY),
+                 "observation_members_whose_printed_form_does_not_parse_back": {
+                     c["enum"]: sorted(k for k, ok in o["printed_parses_back"].items() if not ok)
+                     for c, o in zip(cases, obs) if c["parser"] == MEMBERS and isinstance(o, dict) and "printed_parses_back" in o},
+                 "observation_set_task_dict_on_documented_task_names": {
+                     k: sum(1 for c, o in zip(cases, obs) if c["parser"] == "set_task_dict" and isinstance(o, dict)
+                            and c["input"] in DOC_TABLES["EvaluationTask"].values()
+                            and (o["str"].get("type", "") + ": " + o["str"].get("msg", "") if o["str"].get("kind") == "raises" else o["str"].get("kind")) == k)
+                     for k in {(o["str"].get("type", "") + ": " + o["str"].get("msg", "") if o["str"].get("kind") == "raises" else o["str"].get("kind"))
+                               for c, o in zip(cases, obs) if c["parser"] == "set_task_dict" and isinstance(o, dict)
+                               and c["input"] in DOC_TABLES["EvaluationTask"].values()}},
+                 "observation_non_member_strings_dropped_silently_by_set_task_lists/dict": sum(
+                     1 for c, o in zip(cases, obs) if c["parser"] in ("set_task_lists", "set_task_dict") and isinstance(o, dict)
+                     and c["input"] not in DOC_TABLES["EvaluationTask"].values() and o.get("str", {}).get("kind") in ("list", "dict"))}
+        return {"result_kinds": d, "per_parser": per, **extra}
 
 
 class C20(Prop):
@@ -212,7 +403,13 @@ class C20(Prop):
     props_file = "Props/C20.v"
     gen_files = ["Enums.v"]
     rule = ("every member value and key of every enum in 6 case variants + near misses (trailing blank, dropped char, "
-            "dash/underscore) + documented aliases + random ASCII strings, for each of the 9 string-accepting call sites; "
+            "dash/underscore) + documented aliases + random ASCII strings + 12 non-ASCII strings (oracle: rejected / fallback), for each of the 9 "
+            "string-accepting call sites; members and values are read from the DOCUMENTED tables written down in the harness (not from the "
+            "running enums) and one case per enum compares the running member table and printed forms with them; per member of the five enums "
+            "that document __str__ the printed form str(member), computed on the implementation, must parse back to the member; Shape(spelling, "
+            "size) without a footprint against the enum spelling (rectangle for bounding_box, rejection for polygon); oracle-only call sites "
+            "set_task_lists / set_task_dict (documented values give the member, also repeated) and FrameID.from_task (string = enum spelling, "
+            "documented mapping, 2D tasks and non-members rejected); "
             "non-trivial = input is a documented member spelling or contains upper-case letters")
     assumptions = [
         "Python str.lower()/upper() modelled on ASCII only (non-ASCII case folding outside the model)",
@@ -223,7 +420,9 @@ class C20(Prop):
     level_text = ("Theorems (Props/C20.v, closed under the global context) state for each of the 7 parsers that every documented spelling of "
                   "every member's value yields that member and every other string the documented rejection/fallback, for ALL strings; they are "
                   "proved about an interpreter of parser shapes whose tables and shapes are regenerated from /repo's source on every run, and "
-                  "the interpreter is validated against the real parsers on every member x case variants x near misses x random strings.")
+                  "the interpreter is validated against the real parsers on every member x case variants x near misses x random strings. Run-time "
+                  "oracle only: the running member tables equal the documented ones, printed forms parse back, default footprint of both spellings, "
+                  "set_task_lists / set_task_dict / FrameID.from_task.")
     level_note = ("Trusted: Coq kernel+vm_compute; translator/py_to_coq.py (fail-closed ast matcher); ASCII-only model of str.lower/upper; "
                   "exception class not modelled. A rewrite of a parser into an unrecognised shape breaks the tie (reported as a violation "
                   "with no-failing-input-found unless the exhaustive member sweep finds a failing spelling).")
